@@ -61,7 +61,7 @@ SEARCHES = {
                   "random create/delete/publish histories over 2 topic names x 3 subscription names, incl. racing creates and held topic handles"),
     "order":     (["order", 40], ["order", 400], "2-4 concurrent publishers x 3 messages on a 2-thread runtime, 2 subscriptions"),
     "names":     (["names", 3], ["names", 5], "all strings = stem + suffix over {p,t,/,s,e-acute,-} up to the given suffix length, 24 stems"),
-    "rpc":       (["rpc"], ["rpc"], "6 scripted gRPC scenarios over a unix socket: pull limits and waiting, batch parsing, in-stream modack, namespace status codes, malformed fields, list walks and content identity"),
+    "rpc":       (["rpc"], ["rpc"], "7 scripted gRPC scenarios over a unix socket: pull limits and waiting, batch parsing, in-stream modack, streaming limits and control messages, namespace status codes, malformed fields, list walks and content identity"),
     "paging":    (["paging", 7], ["paging", 12], "page walks over 0,1,2,n resources in 2 projects, 11 page sizes x 6 start offsets, 3 list operations"),
 }
 BY_PROP = {
